@@ -4,10 +4,10 @@
 //! count, final buffer / sink, bytes taken from the reader, final capacity).
 //!
 //! usage: iohelp run <cases.ndjson>      one JSON line per case on stdout
-//!        iohelp print <n> <seed>        the print macros' writer path (unix/print.rs), see below
+//!        iohelp print <seed> <rounds>   the print macros' writer path (unix/print.rs), see print_path
 //!
 //! case: {"op":..,"script":[{"t":..,"k":..}],"data":[..],"init":[..],"cap0":N,"n":N,"pieces":[..],
-//!        "fail_at":K (optional, write_fmt: the K-th fragment's Display impl fails)}
+//!        "ff":1 (optional, write_fmt: the Display impl fails after its last fragment)}
 //! Scripted reader: "c" k = a chunk of k bytes becomes available (a call gets min(k, requested),
 //! the rest is served by the following calls), "eof" = Ok(0), "eintr", "err" k = errno k; an
 //! exhausted script is end of file.  After end of file / an error has been returned the reader
@@ -253,7 +253,8 @@ fn run_case(c: &Value) -> Value {
                     frags.push(core::str::from_utf8(&data[o..o + l]).expect("harness: write_fmt data must be UTF-8"));
                     o += l;
                 }
-                let fail_at = c.get("fail_at").and_then(Value::as_u64).map(|x| x as usize);
+                // ff = 1: the Display impl reports an error after its last fragment
+                let fail_at = if c.get("ff").and_then(Value::as_u64) == Some(1) { Some(frags.len()) } else { None };
                 let p = Pieces { frags, fail_at };
                 let r = s.write_fmt(format_args!("{p}"));
                 (err_class(&r), 0, vec![], 0, 0)
@@ -276,6 +277,141 @@ fn run_case(c: &Value) -> Value {
     }
 }
 
+// ------------------------------------------------------------------------------------------
+// unix/print.rs: print!/println! and the writer behind them (__UnixWriter -> try_print ->
+// write(2) on fd 1).  fd 1 is pointed at a small pipe that a slow thread drains; a signal
+// (handler without SA_RESTART) arriving while the write blocks makes write(2) return SHORT
+// (some bytes already in the pipe) or fail with EINTR (none).  Observed: what the pipe received
+// and, for the direct call, whether fmt::Write::write_fmt reported an error.
+extern "C" fn on_sig(_s: i32) {}
+
+fn pattern(len: usize, salt: usize) -> String {
+    (0..len).map(|i| (b'!' + ((i * 7 + i / 89 + salt) % 90) as u8) as char).collect()
+}
+
+fn print_path(seed: u64, rounds: usize) {
+    use std::sync::atomic::{AtomicBool, Ordering};
+    use std::sync::Arc;
+    let mut rng = vharness::Rng::new(seed);
+    unsafe {
+        let mut sa: libc::sigaction = core::mem::zeroed();
+        sa.sa_sigaction = on_sig as usize;
+        sa.sa_flags = 0;
+        libc::sigaction(libc::SIGUSR1, &sa, core::ptr::null_mut());
+    }
+    let saved = unsafe { libc::dup(1) };
+    assert!(saved >= 0);
+    let me = unsafe { libc::pthread_self() } as usize;
+    let mut results: Vec<Value> = vec![];
+    let kinds = ["direct", "print", "println", "direct", "println0"];
+    let lens = [0usize, 1, 5, 4095, 4096, 4097, 9000, 20000, 70000];
+    let mut idx = 0usize;
+    for round in 0..rounds {
+        for &len in &lens {
+            for kind in kinds {
+                if kind == "println0" && len != 0 {
+                    continue;
+                }
+                idx += 1;
+                let msg = pattern(len, idx);
+                // signals: none / one after a random delay / a burst
+                let sigmode = if len < 4096 { 0 } else { (round + idx) % 3 };
+                let mut fds = [0i32; 2];
+                unsafe {
+                    assert_eq!(0, libc::pipe(fds.as_mut_ptr()));
+                    libc::fcntl(fds[1], libc::F_SETPIPE_SZ, 4096);
+                    assert!(libc::dup2(fds[1], 1) == 1);
+                    libc::close(fds[1]);
+                }
+                let rfd = fds[0];
+                let reader = std::thread::spawn(move || {
+                    let mut got: Vec<u8> = vec![];
+                    let mut buf = [0u8; 1500];
+                    loop {
+                        let n = unsafe { libc::read(rfd, buf.as_mut_ptr().cast(), buf.len()) };
+                        if n <= 0 {
+                            break;
+                        }
+                        got.extend_from_slice(&buf[..n as usize]);
+                        std::thread::sleep(std::time::Duration::from_micros(40));
+                    }
+                    unsafe { libc::close(rfd) };
+                    got
+                });
+                let done = Arc::new(AtomicBool::new(false));
+                let delay = 30 + rng.below(600);
+                let sig = if sigmode > 0 {
+                    let done = done.clone();
+                    Some(std::thread::spawn(move || {
+                        let mut fired = 0u32;
+                        std::thread::sleep(std::time::Duration::from_micros(delay));
+                        loop {
+                            if done.load(Ordering::SeqCst) {
+                                break;
+                            }
+                            unsafe { libc::pthread_kill(me as libc::pthread_t, libc::SIGUSR1) };
+                            fired += 1;
+                            if sigmode == 1 {
+                                break;
+                            }
+                            std::thread::sleep(std::time::Duration::from_micros(120));
+                        }
+                        fired
+                    }))
+                } else {
+                    None
+                };
+                let h = len / 3;
+                let (expect, ok): (String, Option<bool>) = match kind {
+                    "direct" => {
+                        let mut w = tiny_std::unix::print::__STDOUT_WRITER;
+                        let r = core::fmt::Write::write_fmt(&mut w, format_args!("{}{}", &msg[..h], &msg[h..]));
+                        (msg.clone(), Some(r.is_ok()))
+                    }
+                    "print" => {
+                        tiny_std::print!("{}{}", &msg[..h], &msg[h..]);
+                        (msg.clone(), None)
+                    }
+                    "println" => {
+                        tiny_std::println!("{}", msg);
+                        (format!("{msg}\n"), None)
+                    }
+                    _ => {
+                        tiny_std::println!();
+                        ("\n".to_string(), None)
+                    }
+                };
+                done.store(true, Ordering::SeqCst);
+                unsafe {
+                    assert!(libc::dup2(saved, 1) == 1); // drops the last write end of the pipe
+                }
+                let fired = sig.map(|h| h.join().unwrap()).unwrap_or(0);
+                let got = reader.join().unwrap();
+                // println!: the text and the newline are two writes; if the first is cut short by
+                // an error (discarded by the macro) the newline may still follow the prefix
+                let is_ln = kind.starts_with("println");
+                let mut body: &[u8] = &got;
+                let mut nl = false;
+                if is_ln && body.last() == Some(&b'\n') {
+                    nl = true;
+                    body = &body[..body.len() - 1];
+                }
+                let e = if is_ln { &expect.as_bytes()[..expect.len() - 1] } else { expect.as_bytes() };
+                let common = body.iter().zip(e.iter()).take_while(|(a, b)| a == b).count();
+                let mismatch: i64 = if common == body.len().min(e.len()) && body.len() <= e.len() { -1 } else { common as i64 };
+                results.push(json!({"op":"print","kind":kind,"len":e.len(),"rlen":body.len(),"mismatch":mismatch,"nl":nl,
+                    "ok": match ok { Some(true) => 1, Some(false) => 0, None => 2 }, "signals": fired,
+                    "head": &got[..got.len().min(24)]}));
+            }
+        }
+    }
+    let mut out = Out::new();
+    for r in &results {
+        out.ev(r);
+    }
+    out.flush();
+}
+
 fn main() {
     quiet_panics();
     let args: Vec<String> = std::env::args().collect();
@@ -294,8 +430,12 @@ fn main() {
                 out.ev(&r);
             }
         }
+        Some("print") => {
+            print_path(args[2].parse().unwrap(), args[3].parse().unwrap());
+            return;
+        }
         _ => {
-            eprintln!("usage: iohelp run <cases.ndjson>");
+            eprintln!("usage: iohelp run <cases.ndjson> | print <seed> <rounds>");
             std::process::exit(2);
         }
     }
